@@ -171,8 +171,25 @@ func c10Scripted(c *Ctx) {
 			tail := q >= nreq
 			// occasionally administer
 			if !tail && r.IntN(60) == 0 && len(srvs) >= 2 {
-				op := r.IntN(3)
+				op := r.IntN(4)
 				switch {
+				case op == 3 && len(srvs) < 7:
+					// a server that is added, serves while its meter is still warming up, and is taken out again before it is
+					// ready
+					script = append(script, sfmt("canary b%d (not ready) added, one request, removed", nextIdx))
+					if !upsert(nextIdx, 1) {
+						return
+					}
+					canary := srvs[len(srvs)-1]
+					canary.meter.set(0, false)
+					rb.ServeHTTP(httptest.NewRecorder(), httptest.NewRequest("GET", "http://c.test/", nil))
+					if err := rb.RemoveServer(canary.u); err != nil {
+						c.Violation("remove/error", err.Error(), desc())
+						return
+					}
+					srvs = srvs[:len(srvs)-1]
+					nextIdx++
+					c.Count("canaries_removed_while_warming_up", 1)
 				case op == 0 && len(srvs) < 7:
 					script = append(script, sfmt("add b%d", nextIdx))
 					if !upsert(nextIdx, pick(r, confChoices)) {
@@ -728,6 +745,14 @@ func c10Conc(c *Ctx) {
 // same constant scripted ratings live on the same frozen clock. Each round the clock moves just past the back-off, then
 // one instance finishes 8 requests concurrently at that instant and its twin 8 requests one after the other: only the
 // first completion may adjust, so both must end the round with the same weights (one adjustment step).
+func weights0(rr *roundrobin.RoundRobin, n int) []int {
+	ws := make([]int, n)
+	for k := range ws {
+		ws[k], _ = rr.ServerWeight(mustURL(sfmt("http://b%d.test/", k)))
+	}
+	return ws
+}
+
 func c10Burst(c *Ctx) {
 	c.Cases("burst", c.N(150, 3000), func(i int, r *rand.Rand) {
 		backoff := pick(r, []time.Duration{time.Second, 10 * time.Second})
@@ -770,6 +795,39 @@ func c10Burst(c *Ctx) {
 				}
 			}
 			return &inst{rr, rb}, nil
+		}
+		if i%4 == 0 {
+			// a back-off longer than anything the clock will ever reach ("adjust once, then never again"): after the first
+			// adjustment the weights stay where they are, however far the clock is moved
+			saved := backoff
+			backoff = time.Duration(1<<63 - 1)
+			H, err := mk(false)
+			backoff = saved
+			if err != nil {
+				c.Violation("constructor", err.Error(), nil)
+				return
+			}
+			var first []int
+			changes := 0
+			prev := weights0(H.rr, n)
+			for q := 0; q < 8; q++ {
+				advance(time.Duration(1+r.IntN(3600)) * time.Second)
+				H.rb.ServeHTTP(httptest.NewRecorder(), httptest.NewRequest("GET", "http://c.test/", nil))
+				cur := weights0(H.rr, n)
+				if !eqInts(cur, prev) {
+					changes++
+					if first == nil {
+						first = cur
+					}
+				}
+				prev = cur
+			}
+			c.Count("huge_backoff_runs", 1)
+			if changes > 1 {
+				c.Eval()
+				c.Violation("backoff/too-soon", sfmt("back-off of the largest duration, configured %v, ratings %v: the weights changed %d times over 8 requests (first to %v, finally %v); at most one adjustment can ever fall into one back-off interval", conf, rating, changes, first, prev), nil)
+				return
+			}
 		}
 		A, err := mk(true)
 		if err != nil {
